@@ -1130,6 +1130,150 @@ def _grid_classes(case):
     return [f"grid:n={case['n']}", f"grid:align={case['align'][0]}"]
 
 
+# GridFlow histories: "the configured cell width" is the one in force when the grid is drawn, however it got
+# there - constructor argument or a later assignment to .cell_width - and "every cell ... in reading order" is the
+# current .contents, after cells were appended / inserted / removed / re-assigned.  One GridFlow object lives through
+# the whole case (the canvas cache is NOT cleared between steps, as in a running program); after the constructor and
+# after every op it is drawn at every size of the case and the same oracle as check_grid is applied to the model
+# (cell names in order, cell width).  The oracle is silent about h_sep / v_sep / align (the statement is), so
+# assigning them is only a perturbation; the grid always keeps at least one cell (the statement is about cells shown).
+#
+# case: {"n", "cw", "hsep", "vsep", "align", "focus", "sizes": [maxcol | None (fixed: render(()))...], "ops": [...]}
+# ops (positions are taken modulo the current number of cells):
+#   ["cw", k]  grid.cell_width = k          ["hsep", k] / ["vsep", k] / ["align", [type, pct]]  plain attributes
+#   ["append", spell]  ["insert", pos, spell]   a new cell whose options are written as `spell` (GRID_SPELLS)
+#   ["del", pos]       del grid.contents[pos]  (skipped when one cell is left)
+#   ["focus", pos]     grid.focus_position = pos
+#   ["reassign", r]    grid.contents = the current (widget, options) entries rotated by r (the same option objects
+#                      handed back)          ["cells", r]  the same through the backwards-compatible .cells setter
+
+GRID_SPELLS = ("options", "options-str", "options-amount", "tuple-str", "tuple-enum")
+GRID_MAX_CELLS = 26  # one letter per cell, so that neighbouring cells never share a glyph
+
+
+def _grid_options(gf, spell, cw):
+    if spell == "options":
+        return gf.options()
+    if spell == "options-str":
+        return gf.options("given")
+    if spell == "options-amount":
+        return gf.options(urwid.WHSettings.GIVEN, cw)
+    if spell == "tuple-str":
+        return ("given", cw)
+    if spell == "tuple-enum":
+        return (urwid.WHSettings.GIVEN, cw)
+    raise Discard()
+
+
+def _grid_draw(gf, log, names, cw, size, msg):
+    _stat("cfg:grid-history")
+    del log[:]
+    fixed = size is None
+    canv = gf.render(() if fixed else (size,), False)
+    width = cw if fixed else min(cw, size)
+    for name, what, sz in log:
+        # (a drawing answered from the canvas cache renders no cell again: the canvas clauses below still apply)
+        if what == "render" and sz != (width,):
+            raise Violation("grid-cell-width", f"{msg}: cell {name} rendered with {sz}, expected ({width},)")
+    if not fixed and canv.cols() != size:
+        raise Violation("grid-canvas-width", f"{msg}: canvas {canv.cols()} wide")
+    seq = []
+    lines = _rows_of(canv)
+    for line in lines:
+        for g, grp in itertools.groupby(line):
+            if g != " ":
+                seq.append((g, len(list(grp))))
+    want = [(chr(ord("a") + i), width) for i in names]
+    if seq != want:
+        raise Violation("grid-reading-order", f"{msg}: canvas {lines}, expected cells {want}")
+    if len([ln for ln in lines if ln.strip()]) > 1:
+        _stat("grid:several-rows")
+
+
+@_guarded
+def check_grid_hist(case):
+    n, cw, hsep, vsep, align, focus = case["n"], case["cw"], case["hsep"], case["vsep"], case["align"], case["focus"]
+    sizes, ops = case["sizes"], case["ops"]
+    if not sizes or n < 1 or n + len(ops) > GRID_MAX_CELLS:
+        raise Discard()
+    urwid.CanvasCache.clear()
+    log = []
+
+    def cell(i):
+        return Probe(i, log, [FLOW], chr(ord("a") + i))
+
+    names = list(range(n))
+    widgets = {i: cell(i) for i in names}
+    gf = urwid.GridFlow([widgets[i] for i in names], cw, hsep, vsep, _align_arg(align), focus=focus)
+    base = f"GridFlow({n} cells, cell_width={case['cw']}, h_sep={hsep}, v_sep={vsep}, align={align}, focus={focus})"
+    done = []
+
+    def draw_all():
+        for size in sizes:
+            _grid_draw(gf, log, names, cw, size, f"{base} after {done} size={'()' if size is None else (size,)}")
+
+    draw_all()
+    for op in ops:
+        kind = op[0]
+        if kind == "cw":
+            _stat("grid-op:cw(" + ("unchanged" if op[1] == cw else "narrower" if op[1] < cw else "wider") + ")")
+            gf.cell_width = cw = op[1]
+        elif kind == "hsep":
+            gf.h_sep = op[1]
+        elif kind == "vsep":
+            gf.v_sep = op[1]
+        elif kind == "align":
+            gf.align = _align_arg(op[1])
+        elif kind in ("append", "insert"):
+            new = max(widgets) + 1
+            widgets[new] = cell(new)
+            entry = (widgets[new], _grid_options(gf, op[-1], cw))
+            if kind == "append":
+                gf.contents.append(entry)
+                names.append(new)
+            else:
+                pos = op[1] % (len(names) + 1)
+                gf.contents.insert(pos, entry)
+                names.insert(pos, new)
+        elif kind == "del":
+            if len(names) == 1:
+                _stat("grid-op:del-skipped(last cell)")
+                continue
+            pos = op[1] % len(names)
+            del gf.contents[pos]
+            del names[pos]
+        elif kind == "focus":
+            gf.focus_position = op[1] % len(names)
+        elif kind in ("reassign", "cells"):
+            r = op[1] % len(names)
+            names = names[r:] + names[:r]
+            if kind == "reassign":
+                entries = list(gf.contents)
+                gf.contents = entries[r:] + entries[:r]
+            else:
+                gf.cells = [widgets[i] for i in names]
+        else:
+            raise Discard()
+        if kind != "cw":
+            _stat("grid-op:" + kind)
+        done.append(op)
+        draw_all()
+
+
+def _grid_hist_nontrivial(case):
+    # the drawing depends on the history: the cell width is re-configured or the cells change, and a drawing
+    # needs more than one row or is narrower than a cell
+    changed = any(op[0] in ("cw", "append", "insert", "del", "reassign", "cells") for op in case["ops"])
+    widths = [case["cw"]] + [op[1] for op in case["ops"] if op[0] == "cw"]
+    n = case["n"]
+    return changed and any(s is not None and n * w + (n - 1) * case["hsep"] > s for s in case["sizes"] for w in widths)
+
+
+def _grid_hist_classes(case):
+    kinds = sorted({op[0] for op in case["ops"]})
+    return [f"grid-history:len={len(case['ops'])}"] + [f"grid-history:op={k}" for k in kinds]
+
+
 SUBS = {
     "columns": check_columns,
     "pile": check_pile,
@@ -1139,6 +1283,7 @@ SUBS = {
     "filler": check_filler,
     "overlay": check_overlay,
     "grid": check_grid,
+    "grid_hist": check_grid_hist,
 }
 
 
@@ -1324,6 +1469,32 @@ def grid_cases(max_n, maxcol=(1, 30)):
                                    "maxcol": list(maxcol)}
 
 
+GRID_OPS = (
+    [["cw", k] for k in (1, 3, 4, 6)]
+    + [["hsep", 0], ["hsep", 2], ["vsep", 1], ["align", ["right", 0]]]
+    + [["append", sp] for sp in GRID_SPELLS]
+    + [["insert", 0, "options"], ["insert", 1, "tuple-enum"]]
+    + [["del", 0], ["del", -1], ["focus", 0], ["focus", -1], ["reassign", 1], ["cells", 1]]
+)
+
+
+def grid_hist_cases(ns, sizes=(5, 13, None)):
+    """every history of one or two ops of GRID_OPS (every ordered pair, an op twice included) on every small grid:
+    n cells, cell width 2 / 4, h_sep 0 / 1, focus first / last; v_sep and align rotate.  Drawn after every step at a
+    width below the widest cell width, a width that needs several rows, and as a fixed widget."""
+    r = 0
+    hists = [[a] for a in GRID_OPS] + [[a, b] for a in GRID_OPS for b in GRID_OPS]
+    for n in ns:
+        for cw in (2, 4):
+            for hsep in (0, 1):
+                for focus in sorted({0, n - 1}):
+                    for ops in hists:
+                        r += 1
+                        yield {"n": n, "cw": cw, "hsep": hsep, "vsep": r % 2,
+                               "align": (["left", 0], ["center", 0], ["relative", 80])[r % 3], "focus": focus,
+                               "sizes": list(sizes), "ops": ops}
+
+
 # ---------------------------------------------------------------------------------------------
 # Hypothesis strategies ("beyond": longer lists, larger sizes, arbitrary percentages and weights)
 
@@ -1442,6 +1613,29 @@ def _grid_case(draw):
             "maxcol": [maxcol, maxcol]}
 
 
+@st.composite
+def _grid_hist_case(draw):
+    n = draw(st.integers(1, 10))
+    pos = st.integers(-3, 12)
+    spell = st.sampled_from(GRID_SPELLS)
+    op = st.one_of(
+        st.tuples(st.just("cw"), st.integers(1, 20)),
+        st.tuples(st.just("cw"), st.integers(1, 20)),
+        st.tuples(st.just("hsep"), st.integers(0, 4)),
+        st.tuples(st.just("vsep"), st.integers(0, 3)),
+        st.tuples(st.just("align"), _align_st(["left", "center", "right"])),
+        st.tuples(st.just("append"), spell),
+        st.tuples(st.just("insert"), pos, spell),
+        st.tuples(st.just("del"), pos),
+        st.tuples(st.just("focus"), pos),
+        st.tuples(st.sampled_from(["reassign", "cells"]), pos),
+    ).map(list)
+    size = st.one_of(st.integers(1, 40), st.integers(1, 120), st.none())
+    return {"n": n, "cw": draw(st.integers(1, 20)), "hsep": draw(st.integers(0, 4)), "vsep": draw(st.integers(0, 3)),
+            "align": draw(_align_st(["left", "center", "right"])), "focus": draw(st.integers(0, n - 1)),
+            "sizes": draw(st.lists(size, min_size=1, max_size=3)), "ops": draw(st.lists(op, min_size=1, max_size=8))}
+
+
 # ---------------------------------------------------------------------------------------------
 # the campaign
 
@@ -1493,6 +1687,11 @@ def shard(ctx):
           "spelling of the options (quick <=2, thorough <=3 children) + 1 mixed (all lengths)")
     sweep("grid", grid_cases(ctx.scale(5, 7)), _grid_nontrivial, _grid_classes, "GridFlow cells<=7, cell width 1..6, maxcol 1..30")
 
+    sweep("grid_hist", grid_hist_cases(ctx.scale((1, 3, 5), (1, 2, 3, 5, 7))), _grid_hist_nontrivial, _grid_hist_classes,
+          "GridFlow histories: every 1- and 2-op history of 21 ops (cell_width / h_sep / v_sep / align assignment, "
+          "append / insert in every options spelling, delete, focus, contents / cells re-assignment) on small grids, "
+          "drawn after every step at maxcol 5, 13 and fixed")
+
     given("columns", _columns_case(), 300, 8000, _columns_nontrivial, _columns_classes)
     given("pile", _pile_case(), 250, 6000, _pile_nontrivial, _pile_classes)
     given("lrpad", _calc_case(False), 300, 10000, _calc_nontrivial, _calc_classes)
@@ -1501,6 +1700,7 @@ def shard(ctx):
     given("filler", _filler_case(), 250, 6000, _filler_nontrivial, _filler_classes)
     given("overlay", _overlay_case(), 250, 6000, _overlay_nontrivial, _overlay_classes)
     given("grid", _grid_case(), 100, 2500, _grid_nontrivial, _grid_classes)
+    given("grid_hist", _grid_hist_case(), 100, 2500, _grid_hist_nontrivial, _grid_hist_classes)
     # the two large enumerations last: if a loaded machine runs a shard out of its budget, it is here
     sweep("pile", pile_cases(pile_sets), _pile_nontrivial, _pile_classes, pile_name)
     sweep("columns", columns_cases(col_sets), _columns_nontrivial, _columns_classes, col_name)
